@@ -21,12 +21,13 @@ def _subs_with_point(
     point_: Point,
 ) -> Sequence[Expr]:
     base_scalars = coordinate_system.coord_system.base_scalars()
+    # coordinates of the point can be expressed via base scalars themselves, eg trajectory [y, x],
+    # so all base scalars should be replaced at once
+    substitutions = {scalar: point_.coordinate(i) for i, scalar in enumerate(base_scalars)}
     result: list[Expr] = []
     for e in expr:
         expression = sympify(e, strict=True)
-        for i, scalar in enumerate(base_scalars):
-            expression = expression.subs(scalar, point_.coordinate(i))
-        result.append(expression)
+        result.append(expression.subs(substitutions, simultaneous=True))
     return result
 
 
